@@ -25,7 +25,7 @@ import (
 
 func init() {
 	register(&Prop{ID: "C11", Run: runC11, MinNontrivial: 500,
-		Rule:        "direct class: byte strings of every length 0-48 (random, trailing zero bytes, all zero) encrypted by the harness under each of the 5 advertised data algorithms x {OAEP-MGF1P, OAEP-1.1} x digest {absent, \"\", SHA-1, SHA-256, SHA-512} + PKCS#1 v1.5, EncryptedKey inline or detached, recipient certificate absent or matching, CBC filler PKCS#7/zeros/random, decoded through the library's own struct tags and decrypted with DecryptBytes/Decrypt -> plaintext equality; twin class: an IdP-signed assertion padded to every residue mod 16, presented encrypted and plain to SPs keyed by field (X509KeyStore or tls.Certificate store) / setter / both(same) / both(different, setter wins) -> same outcome and data; non-trivial = the decryption routine ran (no parse failure before it); distinct by parameter tuple; the algorithm list is read from Metadata()/MetadataWithSLO() at run time; key configurations with an expired / not-yet-valid pair left in the deprecated field and ValidateEncryptionCert on; plaintexts cut byte-for-byte out of the twin (no own namespace declarations); decompression limits 1/1000/4096 with uncompressed twins; keys with a 2047-bit modulus and keys without prime factors; digest identifiers harvested from the library source in the direct round trips; plaintext prefixes (BOM, XML declaration, white space, comment); an 8192-bit SP key (fixture); an SP certificate crypto/x509 cannot parse (ValidateEncryptionCert off)",
+		Rule:        "direct class: byte strings of every length 0-48 (random, trailing zero bytes, all zero) encrypted by the harness under each of the 5 advertised data algorithms x {OAEP-MGF1P, OAEP-1.1} x digest {absent, \"\", SHA-1, SHA-256, SHA-512} + PKCS#1 v1.5, EncryptedKey inline or detached, recipient certificate absent or matching, CBC filler PKCS#7/zeros/random, decoded through the library's own struct tags and decrypted with DecryptBytes/Decrypt -> plaintext equality; twin class: an IdP-signed assertion padded to every residue mod 16, presented encrypted and plain to SPs keyed by field (X509KeyStore or tls.Certificate store) / setter / both(same) / both(different, setter wins) -> same outcome and data; non-trivial = the decryption routine ran (no parse failure before it); distinct by parameter tuple; the algorithm list is read from Metadata()/MetadataWithSLO() at run time; key configurations with an expired / not-yet-valid pair left in the deprecated field and ValidateEncryptionCert on; plaintexts cut byte-for-byte out of the twin (no own namespace declarations); decompression limits 1/1000/4096 with uncompressed twins; keys with a 2047-bit modulus and keys without prime factors; digest identifiers harvested from the library source in the direct round trips; plaintext prefixes (BOM, XML declaration, white space, comment); signing pairs configured next to the encryption pair (field or setter, RSA or ECDSA); an 8192-bit SP key (fixture); an SP certificate crypto/x509 cannot parse (ValidateEncryptionCert off)",
 		Assumptions: []string{"OAEP is produced with rsa.EncryptOAEP(h) (same hash for label and MGF1), the inverse of what the library calls; the property fixes no MGF", "setter keys are *rsa.PrivateKey values (a crypto.Signer that cannot decrypt cannot be an encryption key)"}})
 }
 
@@ -132,6 +132,25 @@ func c11KeyConfigs() []c11key {
 			}
 			sp.ValidateEncryptionCert = false
 			return c
+		}},
+		{"field+signing-setter", func(w *World, sp *saml2.SAMLServiceProvider) *sim.Cert {
+			// the encryption pair in the field, a different pair for signing through the signing setter
+			sp.SPKeyStore = &RSAKeyStore{C: w.SPEnc}
+			other := sim.Wide(sim.K("spsign2"), w.Now)
+			sp.SetSPSigningKeyStore(&saml2.KeyStore{Signer: other.Key.Signer, Cert: other.DER})
+			return w.SPEnc
+		}},
+		{"setter+signing-setter", func(w *World, sp *saml2.SAMLServiceProvider) *sim.Cert {
+			sp.SetSPKeyStore(&saml2.KeyStore{Signer: w.SPEnc.Key.Signer, Cert: w.SPEnc.DER})
+			other := sim.Wide(sim.K("spsign2"), w.Now)
+			sp.SetSPSigningKeyStore(&saml2.KeyStore{Signer: other.Key.Signer, Cert: other.DER})
+			return w.SPEnc
+		}},
+		{"field-tlscert+signing-setter-ec", func(w *World, sp *saml2.SAMLServiceProvider) *sim.Cert {
+			sp.SPKeyStore = dsig.TLSCertKeyStore(tls.Certificate{Certificate: [][]byte{w.SPEnc.DER}, PrivateKey: w.SPEnc.Key.RSA()})
+			other := sim.Wide(sim.K("spsignec"), w.Now)
+			sp.SetSPSigningKeyStore(&saml2.KeyStore{Signer: other.Key.Signer, Cert: other.DER})
+			return w.SPEnc
 		}},
 		{"setter+signing-field", func(w *World, sp *saml2.SAMLServiceProvider) *sim.Cert {
 			sp.SetSPKeyStore(&saml2.KeyStore{Signer: w.SPEnc.Key.Signer, Cert: w.SPEnc.DER})
